@@ -6,9 +6,10 @@
 From Coq Require Import List Bool.
 Import ListNotations.
 
-Record pp := { pending : bool; ended : bool; alive : bool }.
+(* stash: end() found a command pending, took its result out of the pipe and keeps it for whoever still asks *)
+Record pp := { pending : bool; ended : bool; alive : bool; stash : bool }.
 
-Definition fresh : pp := {| pending := false; ended := false; alive := true |}.
+Definition fresh : pp := {| pending := false; ended := false; alive := true; stash := false |}.
 
 Inductive pcmd :=
 | CSend        (* send_command('next_update' | 'calculate_timestep' | ...) *)
@@ -24,12 +25,13 @@ Definition pstep (s : pp) (c : pcmd) : pp + perr :=
   match c with
   | CSend => if pending s then inr StillPending
              else if ended s then inr Ended             (* the pipe is closed *)
-             else inl {| pending := true; ended := ended s; alive := alive s |}
-  | CGet => if pending s then inl {| pending := false; ended := ended s; alive := alive s |}
+             else inl {| pending := true; ended := ended s; alive := alive s; stash := stash s |}
+  | CGet => if stash s then inl {| pending := pending s; ended := ended s; alive := alive s; stash := false |}
+            else if pending s then inl {| pending := false; ended := ended s; alive := alive s; stash := stash s |}
             else inr NothingPending
   | CEnd => if ended s then inl s                        (* only end once *)
-            else if pending s then inr StillPending      (* send_command('end') runs the pre-check *)
-            else inl {| pending := false; ended := true; alive := false |}
+            else (* a result nobody collected is taken out of the pipe and kept, then 'end' is sent *)
+              inl {| pending := false; ended := true; alive := false; stash := pending s |}
   | CQuery => inl s                                      (* answered on the parent side: no command *)
   | CMoved => inl s                                      (* only detached: the worker is left alone *)
   end.
@@ -37,10 +39,15 @@ Definition pstep (s : pp) (c : pcmd) : pp + perr :=
 (* the pinned code: schema / is_step were commands to the worker (run_command = send + get), and Store.move
    removed the source with _delete_path, which ends every parallel process below it *)
 Definition pstep_pinned (s : pp) (c : pcmd) : pp + perr :=
+  let pend := if ended s then inl s
+              else if pending s then inr StillPending      (* send_command('end') ran the pre-check *)
+              else inl {| pending := false; ended := true; alive := false; stash := false |} in
   match c with
   | CQuery => if pending s then inr StillPending else if ended s then inr Ended else inl s
-  | CMoved => pstep s CEnd
-  | _ => pstep s c
+  | CEnd | CMoved => pend
+  | CGet => if pending s then inl {| pending := false; ended := ended s; alive := alive s; stash := stash s |}
+            else inr NothingPending
+  | CSend => pstep s CSend
   end.
 
 Fixpoint prun_pinned (s : pp) (cs : list pcmd) : pp + perr :=
